@@ -554,6 +554,42 @@ fn no_element_no_call(rep: &mut Report, next_id: &mut u64) {
     let id = *next_id;
     rt.register_function("r1", Box::new(recorder(id, true)));
     let doc = json!({"none": [], "xs": [1, 20, 3]});
+    // two references in one search whose bodies call different functions with names of equal length, and an
+    // unregistered call whose argument calls a registered function (arguments first, then the failure)
+    {
+        *next_id += 2;
+        let (ia, ib) = (*next_id - 1, *next_id);
+        rt.register_function("aa", Box::new(recorder(ia, true)));
+        rt.register_function("bb", Box::new(recorder(ib, true)));
+        for (text, want_ids, want_err) in [
+            ("[map(&aa(@), xs), map(&bb(@), xs)]", vec![ia, ia, ia, ib, ib, ib], None),
+            ("[map(&bb(@), xs), map(&aa(@), xs), map(&bb(@), xs)]", vec![ib, ib, ib, ia, ia, ia, ib, ib, ib], None),
+            ("[sort_by(xs, &aa(@)), sort_by(xs, &bb(@))] | length(@)", vec![ia, ia, ia, ib, ib, ib], None),
+            ("nosuch(aa(xs))", vec![ia], Some("unknown-function")),
+            ("nosuch(aa(xs), bb(xs))", vec![ia, ib], Some("unknown-function")),
+            ("bb(nosuch(aa(xs)))", vec![ia], Some("unknown-function")),
+        ] {
+            rep.evaluations += 1;
+            LOG.with(|l| l.borrow_mut().clear());
+            let got = guarded(|| rt.compile(text).and_then(|e| e.search(rcvar_of(&doc))));
+            let ids: Vec<u64> = LOG.with(|l| l.borrow().iter().map(|r| r.id).collect());
+            let ok = ids == want_ids
+                && match (&got, want_err) {
+                    (Ok(Ok(_)), None) => true,
+                    (Ok(Err(e)), Some(c)) => err_class(e) == c && e.reason.to_string().ends_with(" nosuch"),
+                    _ => false,
+                };
+            if ok {
+                rep.count("several_call_sites_in_one_search_ok");
+            } else {
+                rep.violation(
+                    "C15/wrong-function-called",
+                    json!({"expression": text, "document": doc, "expected_calls": want_ids, "observed_calls": ids, "expected_error": want_err,
+                           "got": format!("{:?}", got.map(|r| r.map(|v| v.to_string()).map_err(|e| e.to_string())))}),
+                );
+            }
+        }
+    }
     for (text, want) in [
         ("map(&nosuch(@), none)", json!([])), ("map(&r1(@), none)", json!([])), ("none[*].nosuch(@)", json!([])), ("none[?nosuch(@)]", json!([])), ("sort_by(none, &nosuch(@))", json!([])),
         ("max_by(none, &r1(@))", json!(null)), ("map(&nosuch(@), xs[?@ > `100`])", json!([])), ("none[].r1(@)", json!([])), ("map(&abs(nosuch(@)), none)", json!([])),
